@@ -420,4 +420,52 @@ example : Disciplined afterCommit1
 example : Disciplined afterCommit1
     (commitOps [1, 2, 1] ⟨0, 3, 12, [0, 2, 3]⟩ [(3, 7)] ⟨2, 4, 50, [3]⟩ [2]) = true := by decide
 
+/-! ## every run of the writer model is disciplined (all rules, merges included) -/
+
+/-- shape of `save_metas` after the repair: at least one `sync_directory` also follows the
+`atomic_write(meta.json)`. Decided on the extracted call list. -/
+theorem C01_save_metas_syncs_around_write :
+    ∃ a, a < 4 ∧ ∃ b, b < 4 ∧
+      Gen.SAVE_METAS_CALLS = List.replicate a 1 ++ [1, 2] ++ List.replicate (b + 1) 1 := by
+  decide
+
+/-- **the full discipline holds for every run of the writer model**: for every state whose newest
+`meta.json` is durable (`Synced`: true after `Index::create` and after every event), and EVERY
+sequence of writer events — segment flushes of workers and merge threads, commits, `end_merge`s
+of committed segments (with their own `save_metas` + collection), explicit collections, in any
+order and number, which is what any merge policy or policy switch can produce — whose local side
+conditions hold, the issued storage operations break NONE of D0–D4. With
+`C01_recover_disciplined` this gives crash-atomicity for every such run.
+This lifts `C01_protocol_disciplined_partial` (one commit, without D3) to all event sequences
+and all rules, for `save_metas` as EXTRACTED from the source. -/
+theorem C01_writer_runs_disciplined (s : PState) (hs : Synced s) (evs : List WEv) :
+    ∃ a b, Gen.SAVE_METAS_CALLS = List.replicate a 1 ++ [1, 2] ++ List.replicate (b + 1) 1 ∧
+      (WRun a b s evs → Disciplined s (evs.flatMap (WEv.ops a b)) = true) := by
+  obtain ⟨a, _, b, _, h⟩ := C01_save_metas_syncs_around_write
+  exact ⟨a, b, h, wrun_disciplined a b s hs evs⟩
+
+/-- … and therefore every crash image at every point of every such run recovers a commit
+between the last acknowledged and the last started one, with all its files sealed. -/
+theorem C01_writer_runs_recover (s : PState) (hi : Inv s) (hs : Synced s) (a b : Nat) (evs : List WEv)
+    (hr : WRun a b s evs) (k : Nat) (img : Image)
+    (hc : CrashImage (s.dir.run ((evs.flatMap (WEv.ops a b)).take k)) img) :
+    ∃ j, recover img = some j ∧ lastAcked s.acked ((evs.flatMap (WEv.ops a b)).take k) ≤ j ∧
+      j ≤ lastStarted s.started ((evs.flatMap (WEv.ops a b)).take k) := by
+  obtain ⟨j, h1, h2, h3, _⟩ :=
+    C01_recover_disciplined s hi _ (wrun_disciplined a b s hs evs hr) k img hc
+  exact ⟨j, h1, h2, h3⟩
+
+theorem C01_created_synced : Synced PState.created := ⟨⟨0, 0, 0, []⟩, by decide⟩
+
+/-- non-vacuity: flush, commit, flush of a merge thread + end_merge (same opstamp), collection -/
+example : WRun 0 0 PState.created
+    [ .flush ⟨0, 1, 9, [0, 2]⟩ [(2, 10)],
+      .commit ⟨0, 2, 9, [0, 2, 3]⟩ [(3, 4)] ⟨5, 3, 50, [2, 3]⟩ [],
+      .flush ⟨0, 4, 9, [0, 2, 3, 4]⟩ [(4, 14)],
+      .endMerge ⟨0, 5, 9, [0, 2, 3, 4]⟩ [] ⟨5, 6, 40, [4]⟩ [2, 3],
+      .gc ⟨0, 7, 9, [0, 4]⟩ [] ] := by
+  simp [WRun, WOk, freshFiles, WEv.ops, coreOps, writeAll, writeFileOps, syncs, PState.created, PState.run,
+    PState.step, Dir.step, Dir.empty, upd, FileSt.ready, FileSt.sync, metaCands, AtomSt.cands, AtomSt.sync,
+    AtomSt.visible, META, MANAGED]
+
 end TantivyModel.C01
